@@ -282,7 +282,7 @@ class Evaluator:
                 self.block(h["body"], env, this)
         elif k == "null":
             return
-        elif k in ("call", "asg", "un", "bin", "cond", "ctor", "cast"):
+        elif k in ("call", "asg", "un", "bin", "cond", "ctor", "cast", "new", "delete"):
             if k == "cond" or k == "call":
                 # assert(...) expands to a conditional calling __assert_fail: ignore
                 from cfg import contains_assert
@@ -421,6 +421,17 @@ class Evaluator:
                 if callable(callee):
                     return callee(self, args)
                 raise Broken("call through an object the evaluator does not model at %s" % e.get("l"))
+            if e.get("ce") is not None and not f and not e.get("fid"):
+                # call through a pointer / reference to function: evaluate the callee expression
+                callee = self.eval(e["ce"], env, this)
+                args = [self.eval(a, env, this) for a in e.get("a", [])]
+                if isinstance(callee, Closure):
+                    return self.call_closure(callee, args)
+                if isinstance(callee, dict) and callee.get("body") is not None:
+                    return self.call(callee, None, args)
+                if callable(callee):
+                    return callee(self, args)
+                raise Broken("indirect call through something the evaluator does not model at %s" % e.get("l"))
             h = self.hook_for(f)
             if h is None and e.get("fn") and ("method:" + e["fn"]) in self.hooks and not e.get("own"):
                 h = self.hooks["method:" + e["fn"]]
